@@ -405,6 +405,50 @@ Proof.
     + destruct (N.eqb s k'); [intro; assumption | exact IH].
 Qed.
 
+Lemma nv_eqb_eq : forall a b, nv_eqb a b = true <-> a = b.
+Proof.
+  intros [a1 a2] [b1 b2]. unfold nv_eqb. cbn. rewrite Bool.andb_true_iff, !N.eqb_eq. split.
+  - intros [-> ->]. reflexivity.
+  - intro H. inversion H. split; reflexivity.
+Qed.
+
+Lemma nv_eqb_refl : forall a, nv_eqb a a = true.
+Proof. intro a. apply nv_eqb_eq. reflexivity. Qed.
+
+Lemma nv_eqb_neq : forall a b, a <> b -> nv_eqb a b = false.
+Proof. intros a b H. destruct (nv_eqb a b) eqn:E; [apply nv_eqb_eq in E; contradiction | reflexivity]. Qed.
+
+Lemma lookup2_app_none : forall {V} k (l : list (nv * V)) k' v,
+  lookup2 k (l ++ [(k', v)]) = match lookup2 k l with Some x => Some x | None => if nv_eqb k k' then Some v else None end.
+Proof.
+  intros V k l k' v. induction l as [|[k0 v0] l IH]; cbn [app lookup2]; [reflexivity|].
+  destruct (nv_eqb k k0); [reflexivity | exact IH].
+Qed.
+
+Lemma lookup2_existsb : forall {V} k (l : list (nv * V)),
+  existsb (fun e => nv_eqb (fst e) k) l = false -> lookup2 k l = None.
+Proof.
+  intros V k l. induction l as [|[k0 v0] l IH]; cbn [existsb lookup2 fst]; [reflexivity|].
+  intro H. apply Bool.orb_false_iff in H. destruct H as [H1 H2].
+  assert (E : nv_eqb k k0 = false).
+  { destruct (nv_eqb k k0) eqn:E; [|reflexivity]. apply nv_eqb_eq in E. subst. rewrite nv_eqb_refl in H1. discriminate. }
+  rewrite E. apply IH. exact H2.
+Qed.
+
+Lemma lookup2_map_replace_other : forall k k0 c (l : list (nv * N)),
+  k0 <> k -> lookup2 k0 (map (fun e => if nv_eqb (fst e) k then (k, c) else e) l) = lookup2 k0 l.
+Proof.
+  intros k k0 c l Hne. induction l as [|[k1 v1] l IH]; cbn [map lookup2 fst]; [reflexivity|].
+  destruct (nv_eqb k1 k) eqn:E1.
+  - apply nv_eqb_eq in E1. subst k1. cbn [lookup2]. rewrite (nv_eqb_neq k0 k Hne). exact IH.
+  - cbn [lookup2]. destruct (nv_eqb k0 k1); [reflexivity | exact IH].
+Qed.
+
+Definition init_lock_get (W : jworld) (v : nv) : option N :=
+  match jw_lock_pkg W with Some l => lookup2 v l | None => None end.
+(* checksum_for_locker of a manifest: its lockfileChecksum field, else the hash of its bytes *)
+Definition cfl_of (vi : vinfo) : N := match vi_lockfile_checksum vi with Some c => c | None => vi_hash vi end.
+
 Section B.
 Variable W : jworld.
 Hypothesis Hwf : wf_jworld W = true.
@@ -464,22 +508,32 @@ Record JInv (st : jstate) : Prop := {
   jv_calls : Forall CallOK (js_calls st);
   jv_items : Forall ItemOK (js_pending st);
   jv_reds : forall s t, lookup s (js_redirects st) = Some t -> RedOK s t;
-  jv_res : Forall ResOK (js_res st)
+  jv_res : Forall ResOK (js_res st);
+  (* a manifest requested without an expected checksum has no entry in the original lockfile *)
+  jv_vq : forall v e b, lookup2 v (js_vq st) = Some (e, b) -> e = None -> init_lock_get W v = None;
+  (* entries of the original lockfile are never overwritten *)
+  jv_lock : forall v c0, init_lock_get W v = Some c0 -> lock_pkg_get st v = Some c0;
+  (* what the locker is told: only for package versions the lockfile did not know, and the manifest's own checksum *)
+  jv_sets : forall v c, In (v, c) (js_lock_sets st) ->
+            init_lock_get W v = None /\ exists vi, v_meta (ver_of W v) = VOk vi /\ c = cfl_of vi
 }.
 
 Lemma jinv_ext : forall st st',
   js_slots st' = js_slots st -> js_calls st' = js_calls st -> js_pending st' = js_pending st ->
-  js_redirects st' = js_redirects st -> js_res st' = js_res st -> JInv st -> JInv st'.
+  js_redirects st' = js_redirects st -> js_res st' = js_res st ->
+  js_vq st' = js_vq st -> js_lock_pkg st' = js_lock_pkg st -> js_lock_sets st' = js_lock_sets st ->
+  JInv st -> JInv st'.
 Proof.
-  intros st st' H1 H2 H3 H4 H5 [A B C D E]. constructor; rewrite ?H1, ?H2, ?H3, ?H4, ?H5; assumption.
+  intros st st' H1 H2 H3 H4 H5 H6 H7 H8 [A B C D E F G K].
+  constructor; unfold lock_pkg_get in *; rewrite ?H1, ?H2, ?H3, ?H4, ?H5, ?H6, ?H7, ?H8; assumption.
 Qed.
 
-Ltac ext H := (eapply jinv_ext; [| | | | |exact H]; reflexivity).
+Ltac ext H := (eapply jinv_ext; [| | | | | | | |exact H]; reflexivity).
 
 Lemma jinv_set_slot : forall st s v,
   JInv st -> (forall e, v = JsErr e -> je_spec e = s) -> JInv (set_slot st s v).
 Proof.
-  intros st s v [A B C D E] Hv. constructor; try assumption.
+  intros st s v [A B C D E F G K] Hv. constructor; try assumption.
   intros s0 e Hl. unfold set_slot in Hl. cbn in Hl. destruct (N.eq_dec s0 s) as [->|Hne].
   - rewrite lookup_set_assoc_same in Hl. inversion Hl; subst. apply Hv. reflexivity.
   - rewrite lookup_set_assoc_other in Hl by exact Hne. apply A. exact Hl.
@@ -493,7 +547,7 @@ Proof. intros st s v H Hv. apply jinv_set_slot; [exact H|]. intros e He. exfalso
 
 Lemma jinv_log_call : forall st s k c,
   JInv st -> CallOK {| jc_spec := s; jc_setting := k; jc_checksum := c |} -> JInv (log_call st s k c).
-Proof. intros st s k c [A B C D E] Hc. constructor; try assumption. cbn. constructor; assumption. Qed.
+Proof. intros st s k c [A B C D E F G K] Hc. constructor; try assumption. cbn. constructor; assumption. Qed.
 
 Lemma callok_plain : forall s k c, cls_of W s = CPlain -> CallOK {| jc_spec := s; jc_setting := k; jc_checksum := c |}.
 Proof. intros s k c H. unfold CallOK. cbn. rewrite H. exact I. Qed.
@@ -501,7 +555,7 @@ Proof. intros s k c H. unfold CallOK. cbn. rewrite H. exact I. Qed.
 Lemma jinv_push_item : forall st it, JInv st -> ItemOK it -> JInv (push_item st it).
 Proof.
   intros st it H Hi. unfold push_item.
-  pose proof (jinv_set_ok st (ji_spec it) JsPending H ltac:(intros e; discriminate)) as [A B C D E].
+  pose proof (jinv_set_ok st (ji_spec it) JsPending H ltac:(intros e; discriminate)) as [A B C D E F G K].
   constructor; try assumption. cbn in *. apply Forall_app. split; [exact C | constructor; [exact Hi | constructor]].
 Qed.
 
@@ -513,16 +567,47 @@ Qed.
 
 Lemma jinv_queue_ver : forall st v, JInv st -> JInv (queue_ver W st v).
 Proof.
-  intros st v H. unfold queue_ver. destruct (existsb _ (js_vq st)); [exact H|].
-  apply jinv_log_call; [ext H | apply callok_plain; apply wf_ver_url].
+  intros st v H. unfold queue_ver. destruct (existsb _ (js_vq st)) eqn:Ex; [exact H|].
+  apply jinv_log_call; [|apply callok_plain; apply wf_ver_url].
+  pose proof (lookup2_existsb v (js_vq st) Ex) as Hnone.
+  destruct H as [A B C D E F G K]. constructor; try assumption. cbn.
+  intros v0 e b Hl He. rewrite lookup2_app_none in Hl.
+  destruct (lookup2 v0 (js_vq st)) as [[e0 b0]|] eqn:E0.
+  - inversion Hl; subst. eapply F; [exact E0 | reflexivity].
+  - destruct (nv_eqb v0 v) eqn:Ev; [|discriminate]. apply nv_eqb_eq in Ev. subst v0.
+    inversion Hl; subst. destruct (init_lock_get W v) as [c0|] eqn:Ei; [|reflexivity].
+    rewrite (G v c0 Ei) in H0. discriminate.
 Qed.
 
 Lemma jinv_mark : forall st req r, JInv st -> JInv (mark_jsr_dep st req r).
 Proof. intros st req r H. unfold mark_jsr_dep. destruct r as [[rg [v|]]|]; try exact H. ext H. Qed.
 
-Lemma jinv_lock_set : forall st v c, JInv st -> JInv (lock_set_pkg st v c).
+(* the locker is only told a checksum_for_locker *)
+Definition CflOK (v : nv) (c : option N) : Prop :=
+  forall k, c = Some k -> init_lock_get W v = None /\ exists vi, v_meta (ver_of W v) = VOk vi /\ k = cfl_of vi.
+
+Lemma jinv_lock_set : forall st v c, JInv st -> CflOK v c -> JInv (lock_set_pkg st v c).
 Proof.
-  intros st v c H. unfold lock_set_pkg. destruct (js_lock_pkg st); [|exact H]. destruct c; [|exact H]. ext H.
+  intros st v c H Hc. unfold lock_set_pkg. destruct (js_lock_pkg st) as [l|] eqn:El; [|exact H].
+  destruct c as [k|]; [|exact H]. destruct (Hc k eq_refl) as [Hinit Hvi].
+  destruct H as [A B C D E F G K]. constructor; try assumption; cbn.
+  - intros v0 c0 Hi. specialize (G v0 c0 Hi). unfold lock_pkg_get in *. rewrite El in G. cbn.
+    assert (Hne : v0 <> v) by (intro; subst; rewrite Hinit in Hi; discriminate).
+    destruct (lookup2 v l).
+    + rewrite lookup2_map_replace_other by exact Hne. exact G.
+    + rewrite lookup2_app_none, G. reflexivity.
+  - intros v0 c0 [Heq|Hin]; [inversion Heq; subst; split; assumption | apply K; exact Hin].
+Qed.
+
+Lemma ver_result_cfl : forall st v vi cfl, JInv st -> ver_result W st v = inl (vi, cfl) -> CflOK v cfl.
+Proof.
+  intros st v vi cfl H Hv k Hk. subst cfl. unfold ver_result in Hv.
+  destruct (v_meta (ver_of W v)) as [f|h|vi0] eqn:Em; try discriminate.
+  - destruct (lookup2 v (js_vq st)) as [[[e|] b]|]; try discriminate. destruct (N.eqb e h); discriminate.
+  - destruct (lookup2 v (js_vq st)) as [[[e|] [|]]|] eqn:Eq; try discriminate.
+    + destruct (N.eqb e (vi_hash vi0)); discriminate.
+    + destruct (N.eqb e (vi_hash vi0)); discriminate.
+    + inversion Hv; subst. split; [apply (jv_vq st H v None true Eq eq_refl)|]. exists vi. split; reflexivity.
 Qed.
 
 Lemma jinv_add_root : forall st s, JInv st -> JInv (add_resolved_root st s).
@@ -540,7 +625,7 @@ Lemma jinv_check_specifier : forall st requested s,
   JInv st -> not_jsr requested -> JInv (check_specifier st requested s).
 Proof.
   intros st requested s H Hn. unfold check_specifier. destruct (N.eqb requested s); [exact H|].
-  destruct H as [A B C D E]. constructor; try assumption; cbn.
+  destruct H as [A B C D E F G K]. constructor; try assumption; cbn.
   - intros s0 e Hl. apply A.
     destruct (lookup requested (js_slots st)) as [[src deps| |e0|]|]; try exact Hl.
     destruct (N.eq_dec s0 requested) as [->|Hne].
@@ -588,7 +673,7 @@ Proof.
              ji_checksum := lock_remote_get st s; ji_vinfo := None; ji_fetch := None |}
     end).
   { destruct (cls_of W s) as [pkg req exp| |p v pa|] eqn:Ec.
-    - pose proof (jinv_queue_pkg _ pkg (jinv_mark st req rng H)) as [A B C D E].
+    - pose proof (jinv_queue_pkg _ pkg (jinv_mark st req rng H)) as [A B C D E F G K].
       constructor; try assumption. cbn. apply Forall_app. split; [exact E|].
       constructor; [|constructor]. unfold ResOK. cbn. exact Ec.
     - apply jinv_set_err. exact H.
@@ -671,6 +756,28 @@ Proof.
     + destruct vinfo; discriminate.
 Qed.
 
+Lemma try_load_https : forall st it v cfl,
+  JInv W st -> t_https (try_load W st it) = Some (v, cfl) -> CflOK W v cfl.
+Proof.
+  intros st it v cfl H. unfold try_load.
+  destruct (ji_probe it) as [[c mi]|]; [cbn; discriminate|].
+  destruct (ji_fetch it) as [v0|] eqn:Ef.
+  - destruct (ver_result W st v0) as [[vi cfl0]|kk] eqn:Ev; [|cbn; discriminate].
+    pose proof (ver_result_cfl W st v0 vi cfl0 H Ev) as Hc.
+    destruct (cls_of W (ji_spec it)) as [pkg req exp| |p v1 pa|].
+    + destruct (check_resp (use_of W (ji_spec it)) (ji_checksum it)) as [[| |t|f|f m]|]; cbn [t_https];
+        intro E; inversion E; subst; exact Hc.
+    + destruct (check_resp (use_of W (ji_spec it)) (ji_checksum it)) as [[| |t|f|f m]|]; cbn [t_https];
+        intro E; inversion E; subst; exact Hc.
+    + destruct (get_checksum W vi pa) as [c0|]; [|cbn; discriminate].
+      destruct (check_resp (use_of W (ji_spec it)) (Some c0)) as [[| |t|f|f m]|]; cbn [t_https];
+        intro E; inversion E; subst; exact Hc.
+    + destruct (check_resp (use_of W (ji_spec it)) (ji_checksum it)) as [[| |t|f|f m]|]; cbn [t_https];
+        intro E; inversion E; subst; exact Hc.
+  - destruct (check_resp (use_of W (ji_spec it)) (ji_checksum it)) as [[| |t|f|f m]|]; cbn [t_https]; try discriminate.
+    destruct (ji_vinfo it); cbn [t_https]; discriminate.
+Qed.
+
 Lemma itemok_not_jsr : forall it, ItemOK W it -> not_jsr W (ji_spec it).
 Proof. intros it H. unfold ItemOK in H. unfold not_jsr. destruct (cls_of W (ji_spec it)); try exact I. exact H. Qed.
 
@@ -679,17 +786,18 @@ Proof.
   intros st it H Hi. unfold process.
   pose proof (try_load_calls st it Hi) as Hcalls.
   pose proof (try_load_content st it) as Hcont.
+  pose proof (try_load_https st it) as Hhttps.
   destruct (try_load W st it) as [res calls vinfo https]. cbn [t_res t_calls t_vinfo t_https] in *.
   set (st1 := st <| js_calls := rev calls ++ js_calls st |>).
   assert (H1 : JInv W st1).
-  { destruct H as [A B C D E]. constructor; try assumption. cbn. apply Forall_app. split; [apply Forall_rev; exact Hcalls | exact B]. }
+  { destruct H as [A B C D E F G K]. constructor; try assumption. cbn. apply Forall_app. split; [apply Forall_rev; exact Hcalls | exact B]. }
   set (st2 := match https with
               | Some (v, cfl) => (lock_set_pkg st1 v cfl) <| js_pkgs := ensure_package (js_pkgs (lock_set_pkg st1 v cfl)) v |>
               | None => st1 end).
   assert (H2 : JInv W st2).
   { unfold st2. destruct https as [[v cfl]|]; [|exact H1].
-    eapply jinv_ext; [| | | | |apply (jinv_lock_set W st1 v cfl H1)]; reflexivity. }
-  clearbody st2. clear H1 st1 H Hcalls.
+    eapply jinv_ext; [| | | | | | | |apply (jinv_lock_set W st1 v cfl H1 (Hhttps v cfl H eq_refl))]; reflexivity. }
+  clearbody st2. clear H1 st1 H Hcalls Hhttps.
   pose proof (itemok_not_jsr it Hi) as Hn.
   destruct res as [e|to|final|final src decl deps content].
   - apply jinv_set_slot; [apply jinv_check_specifier; assumption|]. intros e0 He. inversion He. reflexivity.
@@ -712,7 +820,7 @@ Proof.
         destruct Hi as [[_ Hnone]|[_ [k [Hm [_ Hk]]]]]; [rewrite Hnone in Hp; discriminate|].
         exists k. split; [exact Hm|]. rewrite (Hk c mi Hp). reflexivity. }
       pose proof (jinv_log_call W st4 (ji_spec it) 0 (Some c) H4 Hc) as H5.
-      eapply jinv_ext; [| | | | |exact H5]; reflexivity.
+      eapply jinv_ext; [| | | | | | | |exact H5]; reflexivity.
     + destruct vinfo; [exact H4 | apply jinv_record_remote; exact H4].
 Qed.
 
@@ -781,7 +889,7 @@ Proof.
   destruct pr as [[st1 memo1] cached]. cbn [fst] in Hpr.
   destruct (resolve_version W (jr_req it) versions (versions_by_name (js_pkgs st1) (jr_pkg it)) cached) as [[v yanked]|] eqn:Er.
   - apply IH; [| exact Hrest |].
-    + apply jinv_queue_ver; [exact Hwf|]. eapply jinv_ext; [| | | | |exact Hpr]; reflexivity.
+    + apply jinv_queue_ver; [exact Hwf|]. eapply jinv_ext; [| | | | | | | |exact Hpr]; reflexivity.
     + apply Forall_app. split; [exact Hacc|]. constructor; [|constructor].
       unfold VresOK. cbn. split; [exact Hit|]. split; [reflexivity|]. apply (resolve_version_matches _ _ _ _ _ _ Er).
   - destruct (js_busting st1).
@@ -793,7 +901,7 @@ Lemma jinv_set_redirect : forall st k t pk,
   JInv W st -> RedOK W k t ->
   JInv W (st <| js_pkgs := pk |> <| js_redirects := set_assoc k t (js_redirects st) |>).
 Proof.
-  intros st k t pk [A B C D E] Hr. constructor; try assumption. cbn.
+  intros st k t pk [A B C D E F G K] Hr. constructor; try assumption. cbn.
   intros s t0 Hl. destruct (N.eq_dec s k) as [->|Hne].
   - rewrite lookup_set_assoc_same in Hl. inversion Hl; subst. exact Hr.
   - rewrite lookup_set_assoc_other in Hl by exact Hne. apply D. exact Hl.
@@ -806,8 +914,8 @@ Proof.
   apply IH; [|exact Hrest].
   destruct (ver_result W st (vr_nv x)) as [[vi cfl]|k] eqn:Ev; [|apply jinv_set_err; exact H].
   set (st1 := st <| js_pkgs := ensure_package (js_pkgs st) (vr_nv x) |>).
-  assert (H1 : JInv W st1) by (eapply jinv_ext; [| | | | |exact H]; reflexivity).
-  pose proof (jinv_lock_set W st1 (vr_nv x) cfl H1) as H2.
+  assert (H1 : JInv W st1) by (eapply jinv_ext; [| | | | | | | |exact H]; reflexivity).
+  pose proof (jinv_lock_set W st1 (vr_nv x) cfl H1 (ver_result_cfl W st _ _ _ H Ev)) as H2.
   set (st2 := lock_set_pkg st1 (vr_nv x) cfl) in *. clearbody st2.
   destruct (lookup (jr_exp (vr_item x)) (vi_exports vi)) as [target|] eqn:El; [|apply jinv_set_err; exact H2].
   destruct target as [|p]; [apply jinv_set_err; exact H2|].
@@ -825,7 +933,7 @@ Lemma resolve_jsr_jinv : forall o st,
 Proof.
   intros o st H. unfold resolve_jsr.
   assert (H0 : JInv W (st <| js_res := [] |>)).
-  { destruct H as [A B C D E]. constructor; try assumption. cbn. constructor. }
+  { destruct H as [A B C D E F G K]. constructor; try assumption. cbn. constructor. }
   match goal with
   | |- context [resolve_reqs ?a ?b ?c ?d ?e ?f] =>
       pose proof (resolve_reqs_jinv b e c d f H0 (jv_res W st H) (Forall_nil _)) as [Hr Hv];
@@ -848,14 +956,14 @@ Proof.
   assert (H1 : JInv W st1).
   { unfold st1. destruct (js_pending st) as [|it rest] eqn:Ep; [exact H|].
     pose proof (jv_items W st H) as Hi. rewrite Ep in Hi. inversion Hi as [|? ? Hit Hrest]; subst.
-    apply process_jinv; [|exact Hit]. destruct H as [A B C D E]. constructor; try assumption. }
+    apply process_jinv; [|exact Hit]. destruct H as [A B C D E F G K]. constructor; try assumption. }
   clearbody st1.
   destruct (js_pending st1) as [|i1 r1] eqn:Ep1; [|exact H1].
   pose proof (resolve_jsr_jinv o st1 H1) as H2.
   destruct (resolve_jsr W o st1) as [st2|st2]; [|exact H2].
   destruct (js_pending st2); [|exact H2].
   destruct (js_in_dyn st2); [exact H2|].
-  apply load_branches_jinv. eapply jinv_ext; [| | | | |exact H2]; reflexivity.
+  apply load_branches_jinv. eapply jinv_ext; [| | | | | | | |exact H2]; reflexivity.
 Qed.
 
 Lemma resolve_pending_jinv : forall o fuel st,
@@ -889,30 +997,54 @@ Proof.
   intros st H. unfold content_loads.
   assert (G : forall cs st0, JInv W st0 -> JInv W (fold_left (content_load W) cs st0)).
   { induction cs as [|c cs IH]; intros st0 H0; cbn [fold_left]; [exact H0|]. apply IH. apply content_load_jinv. exact H0. }
-  apply G. eapply jinv_ext; [| | | | |exact H]; reflexivity.
+  apply G. eapply jinv_ext; [| | | | | | | |exact H]; reflexivity.
 Qed.
 
 Lemma init_jinv : JInv W (init_state W).
-Proof. constructor; cbn; try constructor; intros; discriminate. Qed.
+Proof.
+  constructor; cbn.
+  - intros; discriminate.
+  - constructor.
+  - constructor.
+  - intros; discriminate.
+  - constructor.
+  - intros; discriminate.
+  - intros v c0 H. exact H.
+  - intros v c [].
+Qed.
 
 Lemma restart_jinv : forall st, JInv W st -> JInv W (restart_state st).
 Proof.
-  intros st [A B C D E]. constructor; cbn; try constructor; try (intros; discriminate). exact B.
+  intros st [A B C D E F G K]. constructor; cbn.
+  - intros; discriminate.
+  - exact B.
+  - constructor.
+  - intros; discriminate.
+  - constructor.
+  - intros; discriminate.
+  - exact G.
+  - exact K.
 Qed.
 
 Theorem jbuild_jinv : forall o roots g,
   jbuild W o roots = Some g ->
   (forall s e, lookup s (jg_slots g) = Some (JsErr e) -> je_spec e = s) /\
   Forall (CallOK W) (jg_calls g) /\
-  (forall s t, lookup s (jg_redirects g) = Some t -> RedOK W s t).
+  (forall s t, lookup s (jg_redirects g) = Some t -> RedOK W s t) /\
+  (forall v c, In (v, c) (jg_lock_sets g) ->
+     init_lock_get W v = None /\ exists vi, v_meta (ver_of W v) = VOk vi /\ c = cfl_of vi).
 Proof.
   intros o roots g. unfold jbuild.
   assert (Fin : forall r st, JInv W st ->
     (forall s e, lookup s (jg_slots (finish r (content_loads W st))) = Some (JsErr e) -> je_spec e = s) /\
     Forall (CallOK W) (jg_calls (finish r (content_loads W st))) /\
-    (forall s t, lookup s (jg_redirects (finish r (content_loads W st))) = Some t -> RedOK W s t)).
-  { intros r st H. pose proof (content_loads_jinv st H) as [A B C D E]. cbn [finish jg_slots jg_calls jg_redirects].
-    split; [exact A|]. split; [apply Forall_rev; exact B | exact D]. }
+    (forall s t, lookup s (jg_redirects (finish r (content_loads W st))) = Some t -> RedOK W s t) /\
+    (forall v c, In (v, c) (jg_lock_sets (finish r (content_loads W st))) ->
+       init_lock_get W v = None /\ exists vi, v_meta (ver_of W v) = VOk vi /\ c = cfl_of vi)).
+  { intros r st H. pose proof (content_loads_jinv st H) as [A B C D E F G K].
+    cbn [finish jg_slots jg_calls jg_redirects jg_lock_sets].
+    split; [exact A|]. split; [apply Forall_rev; exact B|]. split; [exact D|].
+    intros v c Hin. apply K. apply in_rev. exact Hin. }
   pose proof (resolve_pending_jinv o (jfuel W) (load_roots W (init_state W) roots)
                 (load_roots_jinv roots _ init_jinv)) as H1.
   destruct (resolve_pending (jfuel W) W o (load_roots W (init_state W) roots)) as [st|st|]; [| |discriminate].
